@@ -57,19 +57,37 @@ def param_like(recv, funcnode, depth=3):
     return False
 
 
+def funnel_unit(m):
+    """[(function, site)]: the cache funnel itself (site None) and the private helper methods it calls (site = the call in the
+    funnel that stands for the helper in region / order questions) - the publishing half may have been extracted"""
+    f = roles.cache_funnel(m)
+    out = [(f, None)]
+    for site, h in helper_methods_called(m, f):
+        if h.name.startswith('_') and not h.name.endswith('__') and all(h is not g for g, _ in out):
+            out.append((h, site))
+    return out
+
+
 def _part_of_allowed_writer(m, fi, allowed):
     """fi is a private helper method that was expanded in place of its call in allowed writers only, and no other
     reference to it is left anywhere (so its stores are judged as part of those writers)"""
-    callers = [q for q, hs in m.inlined.items() if fi.qualname in hs]
-    if not callers or not all(q in allowed for q in callers) or not fi.name.startswith('_'):
+    if not fi.name.startswith('_') or fi.cls is None:
         return False
+    callers = [q for q, hs in m.inlined.items() if fi.qualname in hs]
+    if callers and not all(q in allowed for q in callers):
+        return False
+    # every remaining reference to the helper lies in an allowed writer of the same class (a helper that was not expanded -
+    # called inside a conditional expression, say - is still only reachable from there)
+    refs = 0
     for g in m.functions.values():
         if g is fi:
             continue
         for n in ast.walk(g.node):
             if isinstance(n, ast.Attribute) and n.attr == fi.name:
-                return False
-    return True
+                if g.qualname not in allowed or g.cls is None or g.cls.qualname != fi.cls.qualname:
+                    return False
+                refs += 1
+    return bool(callers) or refs > 0
 
 
 @rule('C05.R1', min_instances=4)
@@ -124,20 +142,22 @@ def lock_coverage(ctx):
             ctx.check(in_lock(tgt, 'updateLock'), f'{f.qualname}:store {src(tgt)}', tgt,
                       'store inside updateLock region', 'cache store outside the updateLock region: store and notify '
                       'are no longer atomic, messages can overtake each other', f)
-    notif = func_calls(f.node, attr='updateCallback')
+    unit = funnel_unit(m)
+    notif = [(c, site) for g, site in unit for c in func_calls(g.node, attr='updateCallback')]
     if not notif:
         raise roles.AnchorMissing('call of self.updateCallback in the funnel not found', violation='frappy.modulebase.Module.announceUpdate:call updateCallback')
-    for c in notif:
-        ctx.check(in_lock(c, 'updateLock'), f'{f.qualname}:call updateCallback', c,
+    for c, site in notif:
+        ctx.check(in_lock(c, 'updateLock') or (site is not None and in_lock(site, 'updateLock')), f'{f.qualname}:call updateCallback', c,
                   'notification inside updateLock region', 'dispatcher notification outside the updateLock region', f)
     # callbacks: calls of a loop variable iterating over self.paramCallbacks[...]
-    for node in body_walk(f.node):
-        if isinstance(node, ast.For) and 'paramCallbacks' in src(node.iter):
-            names = {x.id for x in ast.walk(node.target) if isinstance(x, ast.Name)}
-            for c in calls_in(node):
-                if isinstance(c.func, ast.Name) and c.func.id in names:
-                    ctx.check(in_lock(c, 'updateLock'), f'{f.qualname}:call parameter callback', c,
-                              'callback inside updateLock region', 'parameter callback outside the updateLock region', f)
+    for g, site in unit:
+        for node in body_walk(g.node):
+            if isinstance(node, ast.For) and 'paramCallbacks' in src(node.iter):
+                names = {x.id for x in ast.walk(node.target) if isinstance(x, ast.Name)}
+                for c in calls_in(node):
+                    if isinstance(c.func, ast.Name) and c.func.id in names:
+                        ctx.check(in_lock(c, 'updateLock') or (site is not None and in_lock(site, 'updateLock')), f'{f.qualname}:call parameter callback', c,
+                                  'callback inside updateLock region', 'parameter callback outside the updateLock region', f)
 
 
 @rule('C05.R3', min_instances=3)
@@ -350,7 +370,7 @@ def callback_guard_handler_is_total(ctx):
     f = roles.cache_funnel(m)
     ctx.analysed(f)
     n = 0
-    for loop in [x for x in body_walk(f.node) if isinstance(x, ast.For) and 'paramCallbacks' in src(x.iter)]:
+    for loop in [x for g, site in funnel_unit(m) for x in body_walk(g.node) if isinstance(x, ast.For) and 'paramCallbacks' in src(x.iter)]:
         names = {x.id for x in ast.walk(loop.target) if isinstance(x, ast.Name)}
         # `with suppress(Exception): cbfunc(...)` is a guard that can not raise itself
         for w in [x for x in walk_local(loop) if isinstance(x, ast.With)]:
@@ -505,6 +525,12 @@ def cached_error_is_a_secop_error(ctx):
             ok = isinstance(v, ast.Call) and dotted(v.func) == 'secop_error'
             ctx.check(ok, f'{f.qualname}:stored error is a SECoP error', s, 'secop_error(...)', f'`{src(s)}` stores an unconverted error', f)
             continue
+        if isinstance(s, ast.Assign) and isinstance(s.targets[0], (ast.Tuple, ast.List)):
+            # taken out of what a helper of the funnel handed back (`pobj.readerror, cbargs = report`): decided there, not here
+            o = rd.origins_at(s, v)
+            if o and all(isinstance(x, ast.Call) and isinstance(x.func, ast.Attribute) and dotted(x.func.value) == 'self' for x in o):
+                ctx.undecided(f'{f.qualname}:stored error is a SECoP error', s, f'`{src(s)}`: the error comes out of a helper method of the funnel', f)
+                continue
         # `err` is a local: on every path on which it is truthy, the last assignment before the store is `err = secop_error(...)`
         name = v.id
         sids = cfg.node_of(s)
@@ -519,6 +545,8 @@ def cached_error_is_a_secop_error(ctx):
             after = cfg.reach([tt.id], avoid=[tt.id])
             if conv and cfg.all_paths_pass(truthy, sids, conv, exc=False) and not (set(others) & after):
                 ok = True
+            elif conv and not (set(sids) & reach_with_flags(cfg, truthy, avoid=conv)) and not (set(others) & after):
+                ok = True       # the store is skipped by a flag on the paths that leave the conversion out (`if wanted:` twice)
         ctx.check(ok, f'{f.qualname}:stored error is a SECoP error', s, f'on the `if {name}:` side the error passes secop_error() before it is stored',
                   f'`{src(s)}`: a path on which `{name}` is set reaches the store without `{name} = secop_error({name})` - make_update reads `.name` of the '
                   'cached error, a raw exception raises AttributeError inside the notification and the update (and every later one) is lost', f)
